@@ -178,6 +178,12 @@ Proof. intros O Pm C Hs T H. exists []. rewrite app_nil_r. eapply TI_upd; eassum
 Lemma Rel_send_type S c ty p r k : QmS S (new_msg c ty p r k) -> Rel S c (send_type c ty p r k).
 Proof. intros Hq T H. exists [(ty, p)]. apply send_type_TI; assumption. Qed.
 
+Lemma send_frags_Rel S frags : forall c fid n r i, Rel S c (send_frags c fid n r i frags).
+Proof.
+  induction frags as [|f rest IH]; intros c fid n r i; cbn [send_frags]; [apply Rel_refl|].
+  eapply Rel_trans; [apply Rel_send_type; apply QS_frag|apply IH].
+Qed.
+
 Lemma recv_handshake_Rel S c ty oo c' os : recv_handshake c ty oo = (c', os) -> Rel S c c'.
 Proof.
   intros Eh. unfold recv_handshake in Eh.
@@ -243,7 +249,7 @@ Proof.
 Qed.
 
 Theorem step_TI e S Sa Ka T c n x c' o :
-  ev_open x -> small_x e x -> PK c -> AInv Sa Ka c n -> TI S T c -> step e c x = (c', o) ->
+  ev_open x -> user_x x -> PK c -> AInv Sa Ka c n -> TI S T c -> step e c x = (c', o) ->
   exists ext, TI (sent_of x ++ S) (T ++ ext) c' /\
               WireQ (Qm2 (sent_of x ++ S) (T ++ ext)) (flat_map dg_of o).
 Proof.
@@ -255,13 +261,20 @@ Proof.
   assert (Hsame : forall c1, c_outgoing c1 = c_outgoing c -> c_pretry_msg c1 = c_pretry_msg c -> c_pcbs c1 = c_pcbs c ->
                     sm c1 = sm c -> exists ext, TI S' (T ++ ext) c1 /\ WireQ (Qm2 S' (T ++ ext)) []).
   { intros c1 O Pm C Hs. exists []. rewrite app_nil_r. split; [eapply TI_upd; eassumption|apply Wnil]. }
-  destruct x; cbn [step] in E; cbn [ev_open small_x] in *.
-  - (* send of a small payload *)
-    destruct Hsm as [Hl Hk]. pose proof (send_frame _ _ _ _ _ _ _ E) as [_ Ne]. rewrite (no_emit_dg _ Ne).
+  destruct x; cbn [step] in E; cbn [ev_open user_x] in *.
+  - (* send *)
+    pose proof (send_frame _ _ _ _ _ _ _ E) as [_ Ne]. rewrite (no_emit_dg _ Ne).
     unfold send in E. destruct (negb _); [injection E as <- <-; apply Hsame; reflexivity|].
-    assert (len p >? e_max_payload e = false) as Hg by lia. rewrite Hg in E. injection E as <- <-.
-    exists [(APP, p)]. split; [|apply Wnil]. apply send_type_TI; [|exact H].
-    apply QS_send; [exact Hk|]. intros id ->. subst S'. cbn. left. reflexivity.
+    destruct (len p >? e_max_payload e) eqn:Eg.
+    + destruct (len p >? e_max_frag e * e_max_frags e); injection E as <- <-; [apply Hsame; reflexivity|].
+      set (frags := split_frags (Datatypes.S (length p)) e p).
+      set (c0 := c <| c_seq_frag := seq_succ (c_seq_frag c) |>).
+      assert (T0 : TI S' T c0) by (eapply TI_upd; [| | | |exact H]; reflexivity).
+      destruct (send_frags_Rel S' frags c0 (seq_succ (c_seq_frag c)) (len frags) r 0 T T0) as (ext & T1).
+      exists ext. split; [|apply Wnil]. eapply TI_upd; [| | | |exact T1]; reflexivity.
+    + injection E as <- <-.
+      exists [(APP, p)]. split; [|apply Wnil]. apply send_type_TI; [|exact H].
+      apply QS_send; [exact Hsm|]. intros id ->. subst S'. cbn. left. reflexivity.
   - unfold client_tick in E.
     pose proof (client_update_sm c now) as Hs0.
     destruct (client_update c now) as [c0 o0] eqn:E0. cbn [fst] in Hs0.
@@ -419,7 +432,7 @@ Qed.
 Definition short3_ev (e : env) (M : mnet) (vj : lev3) : Prop :=
   auth_ev (m_g M) (fst vj) /\ g_nA (m_g M) <= HALF + 1 /\ c_sent (nA (g_net (m_g M))) <= HALF /\
   match fst (fst vj) with
-  | NA x => small_x e x
+  | NA x => user_x x
   | NB x => forall d, accepts (nB (g_net (m_g M))) x = Some d ->
               snd vj = map w_seq (dg_msgs d) /\ raised (snd (step e (nB (g_net (m_g M))) x)) = false
   end.
@@ -467,15 +480,12 @@ Qed.
 
 (* the theorem for short sessions *)
 Theorem short_success_means_delivered e S K M vs x l js a' o id :
-  0 <= e_max_payload e -> J3 S K M -> TInv M -> short3_run e M (vs ++ [((NA x, l), js)]) ->
+  0 <= e_max_payload e -> J3 S K M -> PFInv e M -> TInv M -> short3_run e M (vs ++ [((NA x, l), js)]) ->
   let M' := mrun e M vs in
   step e (nA (g_net (m_g M'))) x = (a', o) -> In (OCallback id true) o ->
-  exists p i dA w,
-    In (p, id) (m_sent M') /\ In p (dlvB (g_net (m_g M'))) /\
-    In (i, dA) (g_AB (m_g M')) /\ In dA (wAB (g_net (m_g M'))) /\ In dA (g_accB (m_g M')) /\
-    In w (dg_msgs dA) /\ w_type w = APP /\ w_payload w = p.
+  big_id e (m_sent M') id \/ delivered_as M' id.
 Proof.
-  intros He HJ HT Hs. apply (success_means_delivered e S K M vs x l js a' o id He HJ).
+  intros He HJ HPF HT Hs. apply (success_means_delivered e S K M vs x l js a' o id He HJ HPF).
   eapply short3_run_wf3; eassumption.
 Qed.
 
